@@ -181,6 +181,7 @@ func Execute(texts []string, names []string, useFiles bool) (outcome string, err
 	}
 	for j, t := range texts {
 		if ss, err := yang.Parse(t, "generic"); err == nil {
+			writable := int64(len(t))*int64(braceDepth(t)+1) <= 1<<30 // (once per text, not per statement)
 			for _, s := range ss {
 				s.Location()
 				s.Arg()
@@ -188,7 +189,7 @@ func Execute(texts []string, names []string, useFiles bool) (outcome string, err
 				// product of text size and depth by the nature of the call: it goes to
 				// a writer that only counts, and texts whose product exceeds 1 GiB are
 				// not written at all (a thorough run died of its own 8 GB buffer here).
-				if int64(len(t))*int64(braceDepth(t)+1) <= 1<<30 {
+				if writable {
 					s.Write(&countingWriter{}, "")
 				}
 			}
